@@ -928,6 +928,37 @@ func checkRandConfined(c *core.Ctx, rule string) {
 	if n == 0 {
 		c.Info(rule, "batched#rand-fields", "-", "no *rand.Rand struct field is used in the batching pool")
 	}
+	// every holder has a generator of its own: what is stored into a *rand.Rand field is the result of rand.New in the
+	// storing function - never a generator loaded from another object (then all holders, i.e. all client connections
+	// or all pooled connections, draw from one unsynchronised generator)
+	for _, fn := range c.P.RepoFuncs("") {
+		ssax.Instrs(fn, func(ins ssa.Instruction) {
+			st, ok := ins.(*ssa.Store)
+			if !ok {
+				return
+			}
+			fa, ok := st.Addr.(*ssa.FieldAddr)
+			if !ok || types.TypeString(st.Val.Type(), nil) != "*math/rand.Rand" {
+				return
+			}
+			f, _ := ssax.FieldName(fa)
+			key := strings.TrimPrefix(ssax.ShortType(fa.X.Type()), "*") + "." + f + "#own-generator@" + core.FuncName(fn)
+			fresh := true
+			for _, d := range append([]ssa.Value{st.Val}, ssax.Defs(st.Val)...) {
+				switch x := ssax.Unwrap(d).(type) {
+				case *ssa.Call:
+					if ssax.CalleeName(&x.Call) != "math/rand.New" {
+						fresh = false
+					}
+				case *ssa.Phi:
+				default:
+					fresh = false
+				}
+			}
+			c.Check(fresh, rule, key, c.P.Pos(st.Pos()), "the generator stored is created by rand.New for this holder",
+				"the generator stored into field "+f+" is not created for this holder (it is taken from another object): every holder then draws from one math/rand.Rand, which is not safe for concurrent use - a data race between client connections")
+		})
+	}
 }
 
 // checkNoNilIntoPool (R14.13): what is put into a shared object pool is an object. A release whose argument is the
